@@ -258,6 +258,13 @@ def run (cfg : Cfg) (fuel : Nat) : St α → List (Call α) → St α × List (O
     let r := run cfg fuel st' cs
     (r.1, st'.raisedNow :: r.2)
 
+/-- `len(subject.observers)` after each call of the history (compared with the real code). -/
+def runObsCounts (cfg : Cfg) (fuel : Nat) : St α → List (Call α) → List Nat
+  | _, [] => []
+  | st, c :: cs =>
+    let st' := call cfg fuel st c
+    st'.observers.length :: runObsCounts cfg fuel st' cs
+
 def init (cfg : Cfg) (initial : Option α) : St α :=
   match cfg.kind with
   | .behavior => { value := initial }
